@@ -5,7 +5,14 @@
 #include "tdigest.hpp"
 using namespace datasketches;
 using vh::I; using vh::Line; using vh::Out;
-typedef tdigest<double> td_t;
+// value type: double (family tdigest, compared with the Coq model) or float (family tdigest_float, drv_tdigest_f.cpp, oracle only;
+// values still travel as binary64 patterns and are float-representable)
+#ifndef TD_VALUE
+#define TD_VALUE double
+#endif
+typedef TD_VALUE V;
+typedef tdigest<V> td_t;
+typedef std::conditional<std::is_same<V, double>::value, uint64_t, uint32_t>::type WT;   // centroid weight as stored
 static std::map<long, std::unique_ptr<td_t>> regs;
 
 static td_t& get(I r) {
@@ -26,13 +33,13 @@ static void dump(const td_t& s, Out& o) {
   auto b = s.serialize(0, true);
   uint8_t flags = rd<uint8_t>(b, 5);
   if (flags & 1) { o.R(0); o.R(0); return; }
-  if (flags & 2) { o.R(1); o.R(outd(rd<double>(b, 8))); o.R(1); o.R(0); return; }
+  if (flags & 2) { o.R(1); o.R(outd(rd<V>(b, 8))); o.R(1); o.R(0); return; }
   uint32_t nc = rd<uint32_t>(b, 8), nb = rd<uint32_t>(b, 12);
-  size_t off = 32;
+  size_t off = 16 + 2 * sizeof(V);
   o.R(nc);
-  for (uint32_t i = 0; i < nc; ++i) { o.R(outd(rd<double>(b, off))); o.R((I)rd<uint64_t>(b, off + 8)); off += 16; }
+  for (uint32_t i = 0; i < nc; ++i) { o.R(outd(rd<V>(b, off))); o.R((I)rd<WT>(b, off + sizeof(WT))); off += 2 * sizeof(WT); }
   o.R(nb);
-  for (uint32_t i = 0; i < nb; ++i) { o.R(outd(rd<double>(b, off))); off += 8; }
+  for (uint32_t i = 0; i < nb; ++i) { o.R(outd(rd<V>(b, off))); off += sizeof(V); }
 }
 
 static void handler(const Line& t, Out& o) {
@@ -43,7 +50,7 @@ static void handler(const Line& t, Out& o) {
     o.R(1); break; }
   case 2: { // update r v*
     td_t& s = get(t.at(1));
-    for (size_t i = 2; i < t.size(); ++i) s.update(vh::bitsd(t[i]));
+    for (size_t i = 2; i < t.size(); ++i) s.update((V)vh::bitsd(t[i]));
     o.R(1); break; }
   case 4: { // merge r r2
     td_t& a = get(t.at(1)); td_t& b = get(t.at(2));
@@ -58,16 +65,17 @@ static void handler(const Line& t, Out& o) {
       o.R(rmin); o.R(rmax); }
     else { o.R(0); o.R((I)s.get_total_weight()); o.R(outd(s.get_min_value())); o.R(outd(s.get_max_value())); }
     break; }
-  case 6: { td_t& s = get(t.at(1)); o.R(outd(s.get_rank(vh::bitsd(t.at(2))))); break; }
+  case 6: { td_t& s = get(t.at(1)); o.R(outd(s.get_rank((V)vh::bitsd(t.at(2))))); break; }
   case 7: { td_t& s = get(t.at(1)); o.R(outd(s.get_quantile(vh::bitsd(t.at(2))))); break; }
   case 8: case 9: { // CDF / PMF
     td_t& s = get(t.at(1));
-    std::vector<double> pts;
-    for (size_t i = 2; i < t.size(); ++i) pts.push_back(vh::bitsd(t[i]));
+    std::vector<V> pts;
+    for (size_t i = 2; i < t.size(); ++i) pts.push_back((V)vh::bitsd(t[i]));
     auto v = (t.at(0) == 8) ? s.get_CDF(pts.data(), (uint32_t)pts.size()) : s.get_PMF(pts.data(), (uint32_t)pts.size());
     for (double d : v) o.R(outd(d));
     break; }
   case 10: { get(t.at(1)).compress(); o.R(1); break; }
+  case 13: { std::unique_ptr<td_t> p(new td_t(get(t.at(1)))); regs[(long)t.at(2)] = std::move(p); o.R(1); break; }   // r2 := copy of r
   case 11: { dump(get(t.at(1)), o); break; }
   case 12: { // r2 := deserialize(serialize(r, with_buffer)); mode 0 = bytes, 1 = stream, >= 2 = bytes behind a header of `mode` bytes
     td_t& s = get(t.at(1));
